@@ -13,6 +13,13 @@ CONSTANTS
   ShiftHi <- MCShiftHi
   TimeDeltas <- MCTimeDeltas
   YfDays <- MCYfDays
+  FracDen <- MCFracDen
+  FracYears <- MCFracYears
+  FracMonthPins <- MCFracMonthPins
+  FracDayPins <- MCFracDayPins
+  FracStarts <- MCFracStarts
+  FracShiftLo <- MCFracShiftLo
+  FracShiftHi <- MCFracShiftHi
 SPECIFICATION Spec
 INVARIANT TypeOK
 INVARIANT SerialClosedForm
@@ -31,9 +38,11 @@ INVARIANT DateInRange
 INVARIANT ShiftLaws
 INVARIANT ClockLaws
 INVARIANT YearFracSane
+INVARIANT FracLaws
 INVARIANT Export
 PROPERTY WeekdayStep
 PROPERTY EoMonthIsMonthEnd
 PROPERTY DayArgLinear
 PROPERTY EoMonthStep
 PROPERTY YearFracSymmetric
+PROPERTY FracStep
